@@ -9,6 +9,8 @@ import Mimic.Sha1
 import Mimic.Extracted.Auth
 import Mimic.Script
 import Mimic.Packets
+import Mimic.Stream
+import Mimic.Extracted.Stream
 import Mimic.Extracted.Charset
 /-! Line-protocol driver pieces: one `handle` per domain. Unknown input is answered `bad-op`, never defaulted. -/
 namespace Mimic.Drv
@@ -474,6 +476,30 @@ def pktOps (_st : St) : List String → String
       | _, _ => "bad-op"
   | _ => "bad-op"
 
+/-! streaming -/
+
+def parseNats (s : String) : Option (List Nat) := if s = "-" then some [] else optAllL ((s.splitOn ",").map String.toNat?)
+
+def codeOr (s : String) (c : Nat) : Option Nat := if s = "code" then some c else s.toNat?
+
+def strm (_st : St) : List String → String
+  | ["served", batch, n, off, k] => match codeOr batch Mimic.Extracted.Stream.batchSize, n.toNat?, off.toNat?, k.toNat? with
+      | some b, some n, some off, some k => toString (Mimic.Stream.servedAt b n off k)
+      | _, _, _, _ => "bad-op"
+  | ["loops"] => toString Mimic.Extracted.Stream.sourceLoops ++ " " ++ toString Mimic.Extracted.Stream.rowWriteDrains
+  | ["first", b, m, sizes] => match codeOr b Mimic.Extracted.Stream.bufferSize, m.toNat?, parseNats sizes with
+      | some b, some m, some sz => toString (Mimic.Stream.pulledAtFirstFlush b (Mimic.Stream.start m) sz)
+      | _, _, _ => "bad-op"
+  | ["flushes", b, m, sizes] => match codeOr b Mimic.Extracted.Stream.bufferSize, m.toNat?, parseNats sizes with
+      | some b, some m, some sz =>
+          let r := Mimic.Stream.run b (Mimic.Stream.start m) sz
+          s!"{showNats r.flushes.reverse} pulled={r.pulled} handed={r.handed}"
+      | _, _, _ => "bad-op"
+  | ["yields", batch, n] => match codeOr batch Mimic.Extracted.Stream.batchSize, n.toNat? with
+      | some b, some n => showNats (Mimic.Stream.yieldPoints b n)
+      | _, _ => "bad-op"
+  | _ => "bad-op"
+
 def handle (st : St) (line : String) : St × String :=
   match words line with
   | "ctl" :: rest => ctl st rest
@@ -485,6 +511,7 @@ def handle (st : St) (line : String) : St × String :=
   | "auth" :: rest => auth st rest
   | "conn" :: rest => conn st rest
   | "pkt" :: rest => (st, pktOps st rest)
+  | "strm" :: rest => (st, strm st rest)
   | _ => (st, "bad-op")
 
 end Mimic.Drv
